@@ -105,7 +105,23 @@ def make_prop(rng, prob, alg):
 
 
 def gen_problem(rng):
-    theme = rng.choice(["int", "int", "int", "bool", "circuit"])
+    theme = rng.choice(["int", "int", "int", "int", "int", "int", "bool", "bool", "circuit", "circuit", "graph"])
+    if theme == "graph":
+        # strong connectivity posted WITHOUT alldifferent (it is decisive on instantiated successor tuples by itself, but a weak
+        # filter on intervals: the search and shaving have to do the work)
+        n = rng.randint(2, 5)
+        shr = []
+        for _ in range(n):
+            a = rng.randint(0, n - 1)
+            shr.append((rng.randint(0, a), rng.randint(a, n - 1)) if rng.random() < 0.7 else (0, n - 1))
+        p = nv.Prob(shr)
+        p.props.append((list(range(n)), "scc", []))
+        if rng.random() < 0.3:
+            q = make_prop(rng, p, rng.choice(["affine_leq", "max_leq", "count_eq", "lexicographic_leq"]))
+            if q:
+                p.props.append(q)
+        rng.shuffle(p.props)
+        return p, theme
     if theme == "circuit":
         n = rng.randint(2, 5)
         shr = []
@@ -145,6 +161,10 @@ def gen_problem(rng):
         q = make_prop(rng, p, rng.choice(algs))
         if q:
             p.props.append(q)
+    if rng.random() < 0.06:
+        # a linear constraint over an EMPTY list of variables (what a model generated by a loop over groups posts for an empty
+        # group): 0 <= c, 0 = c or 0 >= c — possibly false, in which case the problem has no solution
+        p.props.insert(rng.randint(0, len(p.props)), ([], rng.choice(["affine_leq", "affine_eq", "affine_geq"]), [rng.choice([-1, 0, 0, 1])]))
     return p, theme
 
 
